@@ -83,7 +83,10 @@ def run_history(ops, rnd):
         lab_before = bytes(g.label._data) if getattr(g, 'label', None) is not None else None
         raised = False
         try:
-            g.write_cart_data(data, addr)
+            if addr == 0 and j % 2:
+                g.write_cart_data(data)         # (the address defaults to 0)
+            else:
+                g.write_cart_data(data, addr)
         except ValueError:
             raised = True
         except Exception as e:  # noqa
@@ -114,6 +117,14 @@ def run_history(ops, rnd):
         lab_after = bytes(g.label._data) if getattr(g, 'label', None) is not None else None
         if lab_after != lab_before:
             runs.append([TOP, TOP + 1])
+        # "according to the PICO-8 memory map": 0x1000-0x1fff is also the map's rows 32-63 (seen through the map object)
+        try:
+            for (x, y) in ((0, 32), (127, 63), (addr % 128, 32 + (addr // 128) % 32)):
+                if len(after[0]) == 0x2000 and g.map.get_cell(x, y) != after[0][0x1000 + (y - 32) * 128 + x]:
+                    runs.append([TOP + 2, TOP + 3])
+                    break
+        except Exception:
+            runs.append([TOP + 2, TOP + 3])
         rec.append({'addr': addr, 'len': ln, 'raised': raised, 'sizes': sizes, 'runs': runs, 'vals': vals})
     return {'ops': rec}
 
